@@ -204,12 +204,19 @@ def userNameToFileName(
     sliceLength = maxFileNameLength - prefixLength - suffixLength
     userName = userName[:sliceLength]
     # test for illegal files names
-    parts = []
-    for part in userName.split("."):
-        if part.lower() in reservedFileNames:
-            part = "_" + part
-        parts.append(part)
-    userName = ".".join(parts)
+    while True:
+        parts = []
+        for part in userName.split("."):
+            if part.lower() in reservedFileNames:
+                part = "_" + part
+            parts.append(part)
+        fixedName = ".".join(parts)
+        if len(fixedName) <= sliceLength:
+            break
+        # the added underscores pushed the name past the limit: clip again,
+        # and re-check because clipping can expose a reserved name at the end
+        userName = fixedName[:sliceLength]
+    userName = fixedName
     # test for clash
     fullName = prefix + userName + suffix
     if fullName.lower() in existing:
